@@ -71,6 +71,17 @@ def gen_program(rng: random.Random, profile: Dict[str, Any]) -> Dict[str, Any]:
     B, S = rng.sample([2, 3, 5], 2)
     D = rng.choice([4, 6, 8])
     H = rng.choice([d for d in (5, 7, 10, 12) if d != D])
+    # boundaries: sizes are pairwise distinct by default (a wrong-axis slip cannot hide), but coincidences and sizes of 1 are
+    # cases of their own: square projections, batch == sequence length, a single sequence / a single token
+    r = rng.random()
+    if r < 0.12:
+        H = D
+    elif r < 0.20:
+        S = B
+    elif r < 0.27:
+        B = 1
+    elif r < 0.34:
+        S = 1
     V = rng.choice([11, 13, 17])
     b = Builder(rng, dtype, B, S, D, V)
     forms = set(profile.get("forms", []))
